@@ -23,6 +23,72 @@ package virtual
 //@             forall l re_sync.TryLocker :: old(pile[lockPile][l]) > 0 ==> pile[lockPile][l] > 0
 
 // ---------------------------------------------------------------------------
+// Directory contents: map and cookie-ordered list move together, and every
+// modification bumps the change counter by exactly one (C13)
+//
+// touches(c): number of times this call bumped the change counter of c.
+
+//@ ghost map touches(ref) int zero
+
+//@ func (*inMemoryDirectoryContents).touch
+//@   props C13
+//@   assume c.changeID < MaxUint64 -- a directory is not modified 2^64 times
+//@   modifies c.changeID, c.lastDataModificationTime, clocknow
+//@   ghostset touches[c] = old(touches(c)) + 1
+//@   ensures counter-strictly-increases: c.changeID == old(c.changeID) + 1
+
+//@ func (*inMemoryDirectoryContents).attach
+//@   props C13
+//@   requires c.entriesList.previous != nil && c.entriesList.previous.next == &c.entriesList
+//@   panics_if c.isDeleted || normalizedName in c.entriesMap
+//@   ensures resolves-to-what-was-put-there: normalizedName in c.entriesMap && c.entriesMap[normalizedName].child.kind == child.kind &&
+//@             c.entriesMap[normalizedName].child.directory == child.directory && c.entriesMap[normalizedName].child.leaf == child.leaf &&
+//@             c.entriesMap[normalizedName].name == name && c.entriesMap[normalizedName].normalizedName == normalizedName
+//@   ensures appended-at-the-tail-of-the-cookie-list: c.entriesList.previous == c.entriesMap[normalizedName] &&
+//@             c.entriesMap[normalizedName].next == &c.entriesList &&
+//@             c.entriesMap[normalizedName].previous == old(c.entriesList.previous) &&
+//@             old(c.entriesList.previous).next == c.entriesMap[normalizedName]
+//@   ensures cookie-is-the-counter-at-attach-time: c.entriesMap[normalizedName].cookie == old(c.changeID)
+//@   ensures one-modification: c.changeID == old(c.changeID) + 1 && touches(c) == old(touches(c)) + 1
+//@   ensures entry-is-new: c.entriesMap[normalizedName] != old(c.entriesList.previous) && c.entriesMap[normalizedName] != &c.entriesList
+
+//@ func (*inMemoryDirectoryContents).detach
+//@   props C13
+//@   requires linked: entry != nil && entry.previous != nil && entry.next != nil && entry.previous.next == entry && entry.next.previous == entry
+//@   requires not-the-sentinel: entry != &c.entriesList && entry.previous != entry && entry.next != entry
+//@   ensures no-longer-resolves: !(old(entry.normalizedName) in c.entriesMap)
+//@   ensures unlinked-from-the-cookie-list: old(entry.previous).next == old(entry.next) && old(entry.next).previous == old(entry.previous)
+//@   ensures cleared-so-readdir-notices: entry.previous == nil && entry.next == nil
+//@   ensures one-modification: c.changeID == old(c.changeID) + 1 && touches(c) == old(touches(c)) + 1
+
+//@ func (*inMemoryDirectoryContents).mayAttach
+//@   props C13
+//@   pure
+//@   ensures allowed-iff-alive-and-name-free: (r0 == 0) == (!c.isDeleted && !(name in c.entriesMap))
+//@ func (*inMemoryDirectoryContents).virtualMayAttach
+//@   props C13
+//@   pure
+//@   ensures deleted-directories-accept-nothing: c.isDeleted ==> r0 == StatusErrNoEnt
+//@   ensures existing-names-are-kept: !c.isDeleted && name in c.entriesMap ==> r0 == StatusErrExist
+//@   ensures r0 == StatusOK ==> !c.isDeleted && !(name in c.entriesMap)
+
+// A listing resumed at a cookie starts at the first entry whose cookie is not
+// smaller; entries are reported with cookie+1, so resuming there continues
+// behind the reported entry.
+//@ func (*inMemoryDirectoryContents).getEntryAtCookie
+//@   props C13
+//@   pure
+//@   ensures resumes-at-or-behind-the-cookie: r0 == &c.entriesList || r0.cookie >= firstCookie
+
+//@ func (*inMemoryPrepopulatedDirectory).VirtualReadDir
+//@   props C13
+//@   at call getEntryAtCookie#1 assert starts-at-the-callers-cookie: arg1 == firstCookie
+//@   at call getEntryAtCookie#2 assert reseeks-at-the-interrupted-entry: arg1 == entry.cookie
+//@   at call ReportEntry#1 assert cookie-continues-behind-the-entry: entry.cookie < MaxUint64 ==> arg1 == entry.cookie + 1
+//@   at call ReportEntry#1 assert name-of-the-entry: arg2 == entry.name
+//@   at call ReportEntry#2 assert cookie-continues-behind-the-entry: entry.cookie < MaxUint64 ==> arg1 == entry.cookie + 1 && arg2 == entry.name
+
+// ---------------------------------------------------------------------------
 // Pool-backed files live exactly as long as referenced (C16)
 //
 // fileBackedFile is a monitor: all mutable fields are guarded by f.lock.
